@@ -1,1 +1,6 @@
 import KB.Bytes
+import KB.Coder
+import KB.Engine
+import KB.Scan
+import KB.Backend
+import KB.Props.C10
